@@ -856,6 +856,36 @@ static int op_x509(TH *t, const OP *op, DR *d, FH *o)
 	return ok;
 }
 
+/* calendar arithmetic and time encodings: many calls per operation, every thread with its own dates (code of this kind is where
+ * libc's process-wide broken-down-time buffers get used) */
+static int op_x509time(TH *t, const OP *op, DR *d, FH *o)
+{
+	int i, ok = 1, n = 100 + (int)(op->b % 300);
+	(void)t;
+	for (i = 0; i < n; i++) {
+		time_t nb = (time_t)(946684800u + dr_below(d, 2000000000u)), na = 0, nb2 = 0, na2 = 0, tv = 0;
+		int days = 1 + (int)dr_below(d, 3653), r1, r2, r3, r4, r5;   /* X509_VALIDITY_MIN_DAYS .. X509_VALIDITY_MAX_DAYS */
+		uint8_t buf[64], *p = buf;
+		const uint8_t *cp = buf;
+		size_t len = 0;
+		r1 = x509_validity_add_days(&na, nb, days);
+		f_int(o, r1); f_int(o, (long)na);
+		if (r1 != 1) { ok = 0; continue; }
+		r2 = x509_validity_to_der(nb, na, &p, &len);
+		f_int(o, r2); f_buf(o, buf, r2 == 1 ? len : 0);
+		if ((i & 15) == 0) Y();
+		r3 = r2 == 1 ? x509_validity_from_der(&nb2, &na2, &cp, &len) : -9;
+		f_int(o, r3); f_int(o, (long)nb2); f_int(o, (long)na2);
+		if (r2 != 1 || r3 != 1 || nb2 != nb || na2 != na) ok = 0;
+		p = buf; cp = buf; len = 0;
+		r4 = x509_time_to_der(nb + days, &p, &len);
+		r5 = r4 == 1 ? x509_time_from_der(&tv, &cp, &len) : -9;
+		f_int(o, r4); f_int(o, r5); f_int(o, (long)tv);
+		if (r4 != 1 || r5 != 1 || tv != nb + days) ok = 0;
+	}
+	return ok;
+}
+
 /* textual rendering of a certificate into a FILE of the thread's own (the bytes printed are an output like any other) */
 static int op_x509print(TH *t, const OP *op, DR *d, FH *o)
 {
@@ -1325,7 +1355,7 @@ static const struct { const char *name; op_fn fn; } OPS[] = {
 	{ "sm4cbc", op_sm4cbc }, { "sm4ctr", op_sm4ctr }, { "sm4gcm", op_sm4gcm }, { "aes", op_aes }, { "zuc", op_zuc },
 	{ "sm2key", op_sm2key }, { "sm2sign", op_sm2sign }, { "sm2enc", op_sm2enc },
 	{ "sm9sign", op_sm9sign }, { "sm9enc", op_sm9enc },
-	{ "x509", op_x509 }, { "x509print", op_x509print }, { "cms", op_cms }, { "b64pem", op_b64pem }, { "der", op_der },
+	{ "x509", op_x509 }, { "x509time", op_x509time }, { "x509print", op_x509print }, { "cms", op_cms }, { "b64pem", op_b64pem }, { "der", op_der },
 	{ "tlsrec", op_tlsrec }, { "tls13rec", op_tls13rec }, { "hs", op_hs },
 };
 #define N_OPS (sizeof(OPS) / sizeof(OPS[0]))
